@@ -200,8 +200,9 @@ def cartesian_distance(p1, p2=[0,0,0]):
         Cartesian distance between points p1 and p2
 
     """
-    p1 = np.array(p1)
-    p2 = np.array(p2)
+    # (double precision: integer-typed coordinates overflow when squared)
+    p1 = np.array(p1, dtype=float)
+    p2 = np.array(p2, dtype=float)
     return np.sqrt(np.sum((p1-p2)**2))
 
 
